@@ -292,15 +292,17 @@ theorem kernel_mixadd_nest (ws : List Layer) (hw : Wrappers ws) (T : IntTy) (hT 
   rfl
 
 /-! Non-vacuity of the exponent-changing theorems: concrete nests, both directions, undefined cases, and the
-necessity of `PowWF` (where the bare instantiation is ill-formed the wrapper may still compile and then
-computes something else: `1 / (1 << 31)` in `int`). -/
+necessity of `PowWF` (where the bare instantiation is ill-formed the wrapper's is too: before the repair of
+`C09.wrapped_power_is_int_min` a `rounding_integer` compiled there and computed `1 / (1 << 31)` in `int`;
+`default_scale<-k>` now asserts `0 < divisor`). -/
 example : Wrappers [.ov, .rd] ∧ PowWF i8 3 2 ∧ PowWF i16 (-30) 2 ∧ ¬ PowWF i32 31 2 ∧ PowWF i8 2 10 ∧ ¬ PowWF i32 10 10 := by decide +kernel
 example : ScaleDefined [.ov, .rd] (-3) 2 ∧ ScaleDefined [.ov] (-3) 10 ∧ ¬ ScaleDefined [.ov, .rd] (-3) 10 := by decide +kernel
 example : (ops 2).scale 3 2 (nest [.ov, .rd] i8, 5) = .ok (nest [.ov, .rd] i32, 40) := by decide +kernel
 example : (ops 2).scale (-3) 2 (nest [.ov, .rd] i8, -50) = .ok (nest [.ov, .rd] i32, -6) := by decide +kernel
 example : (ops 1).scale 2 10 (nest [.ov] u8, 255) = .ok (nest [.ov] i32, 25500) := by decide +kernel
 example : (ops 1).scale 30 2 (nest [.ov] i32, 7) = .ub .signedOverflow ∧ scaleInt 30 2 (i32, 7) = .ub .signedOverflow := by decide +kernel
-example : (ops 1).scale (-31) 2 (nest [.rd] i32, 1) = .ok (nest [.rd] i32, 0) ∧ ¬ PowWF i32 (-31) 2 := by decide +kernel
+example : (ops 1).scale (-31) 2 (nest [.rd] i32, 1) = .ill "scale: attempted operation will result in overflow"
+    ∧ ¬ PowWF i32 (-31) 2 := by decide +kernel
 example : Layered.bin .add (scn [.ov, .rd] i8 (-4) 2 100) (scn [.ov, .rd] i16 (-1) 2 (-3))
     = .ok (scn [.ov, .rd] i32 (-4) 2 76) := by decide +kernel
 example : Layered.bin .sub (scn [.rd] u32 0 2 1) (scn [.rd] u32 (-8) 2 257) = .ok (scn [.rd] u32 (-8) 2 4294967295) := by decide +kernel
